@@ -195,6 +195,21 @@ func scenarioC01(c *Ctx) {
 		})); err == nil {
 			fail("junk-accepted", "a signature was reconstructed although one of the t partial signatures is corrupt", map[string]interface{}{"n": cf.n, "t": cf.t})
 		}
+		// one of the t answers does not cover the whole batch (a faulty participant's answer lacks m2):
+		// whatever the node then reconstructs, broadcasts or stores must still be a valid signature -
+		// for m2 there are only t-1 shares, so there is nothing to reconstruct
+		{
+			resp := mk(firstT, id)
+			delete(resp.Participants[0].PartialSigns, "m2")
+			sigs, err := node.VerifReconstructThresholdSignature(inst, resp)
+			if err == nil {
+				for _, sg := range sigs {
+					if !prysmVerify(groupKey, sg.SrcPayload, sg.Signature) {
+						fail("incomplete-answer-yields-invalid-signature", fmt.Sprintf("an answer that lacks one message of the batch makes the node reconstruct a value for %s from fewer than t shares; it does not verify under the group key", sg.MessageID), map[string]interface{}{"n": cf.n, "t": cf.t, "message": sg.MessageID})
+					}
+				}
+			}
+		}
 		if cf.n > cf.t {
 			other := NewKeySet(30+ci, cf.t, cf.n)
 			if _, err := node.VerifReconstructThresholdSignature(inst, mk(firstT, func(i int, s []byte) []byte {
